@@ -80,6 +80,16 @@ ERROR_CLASSES: dict[str, dict[str, Any]] = {
     # the scope exists, the name exists outside it, but it is not a member of the scope
     "outer_symbol_through_scope": {"scope": "asm", "text": "outer_zq = 4\n.scope sc_zq {\n    in_zq:\n    .db 1\n}\n.dw sc_zq.outer_zq", "top_only": True},
     "outer_label_through_scope": {"scope": "asm", "text": "outl_zq:\n.scope sd_zq {\n    ind_zq:\n    .db 1\n}\n.dl sd_zq.outl_zq", "top_only": True},
+    # a definition nobody reads still has to be evaluated: its undefined right-hand side is an error
+    "undefined_in_unused_definition": {"scope": "asm", "text": "spare_zq = undefined_zq + 1"},
+    "undefined_macro_argument_unused": {"scope": "asm", "text": ".macro ign_zq(a_zq) {\n    .db 1\n}\nign_zq(undefined_zq)"},
+    # the name exists in the program, but in a scope that is closed / not visible at the reference
+    "label_local_to_closed_block": {"scope": "asm", "text": "{\n    inner_zq:\n    .db 1\n}\n.dl inner_zq"},
+    "symbol_local_to_closed_block": {"scope": "asm", "text": "{\n    innersym_zq = 5\n    .db 1\n}\n.db innersym_zq"},
+    "unused_definition_from_closed_block_label": {"scope": "asm", "text": "{\n    innerb_zq:\n    .db 1\n}\nspareb_zq = innerb_zq + 1"},
+    "label_local_to_for_body": {"scope": "asm", "text": ".for k_zq := 0, 1 {\n    inf_zq:\n    .db 1\n}\njmp.w inf_zq"},
+    "label_local_to_macro_body": {"scope": "asm", "text": ".macro lm_zq() {\n    inm_zq:\n    .db 1\n}\nlm_zq()\n.dw inm_zq", "top_only": True},
+    "bare_name_of_scoped_label": {"scope": "asm", "text": ".scope se_zq {\n    ins_zq:\n    .db 1\n}\n.dl ins_zq", "top_only": True},
     "undefined_in_assign": {"scope": "asm", "text": "assign_zq := undefined_zq + 1"},
     "undefined_in_for_bound": {"scope": "asm", "text": ".for i_zq := 0, undefined_zq {\n    nop\n}"},
     "undefined_ips_delta": {"scope": "asm", "text": ".include_ips 'missing_zq.ips', undefined_zq"},
@@ -137,7 +147,7 @@ def applicable(klass: str, slot: dict[str, Any]) -> bool:
         return False
     if spec.get("top_only") and slot["ctx"] not in ("top", "included_file"):
         return False
-    if klass in ("too_few_macro_args", "undefined_macro_argument") and slot["ctx"] not in ("top", "included_file"):
+    if klass in ("too_few_macro_args", "undefined_macro_argument", "undefined_macro_argument_unused") and slot["ctx"] not in ("top", "included_file"):
         # keep the helper macro definition at file level
         return False
     return True
